@@ -326,6 +326,12 @@ class Body:
                         fail_e.add((bi, oth))
                     else:
                         succ_e.add((bi, oth))
+            elif dl == place_local(t["dst"]) or (dl in tainted and self.locals[dl]["ty"] == "bool" and self.locals[place_local(t["dst"])]["ty"] == "bool"):
+                # the call itself returns bool: true edge = success
+                for v, tgt in tt["targets"]:
+                    (fail_e if v == 0 else succ_e).add((bi, tgt))
+                vals = [v for v, _ in tt["targets"]]
+                (succ_e if 0 in vals else fail_e).add((bi, tt["otherwise"]))
             else:
                 # bool produced by is_ok()/is_err()/is_some()/is_none() on a tainted value
                 for (cb, ct) in self.calls():
